@@ -1623,7 +1623,24 @@ class Models:
     def bi_repr(self, eng, st, pos, kw, fx):
         return [Res("ok", st, vstr(fresh("repr", I)))]
 
+    def bi_copy_copy(self, eng, st, pos, kw, fx):
+        """copy.copy(x) of an object without __copy__: a new object of the same class holding the same attribute values / elements
+        (shallow); values that are no heap objects are returned as they are"""
+        v = eng.to_val(st, pos[0])
+        out = []
+        for br, isref in eng.split(st, is_ref(v), "copy.copy of an object"):
+            if not isref:
+                out.append(Res("ok", br, v))
+                continue
+            a = br.new_addr()
+            for comp in ("cls_of", "idict", "llen", "lelem", "dhas", "dval", "dkey", "dsize"):
+                br.put(comp, a, br.get(comp, a_of(v)))
+            out.append(Res("ok", br, vref(a)))
+        return out
+
     def bi_id(self, eng, st, pos, kw, fx):
+        if len(pos) == 1 and (is_val(pos[0]) or isinstance(pos[0], PClass)):
+            return [Res("ok", st, vint(ID_OF(eng.to_val(st, pos[0]))))]          # the same object has the same id
         return [Res("ok", st, vint(fresh("id", I)))]
 
     def bi_range(self, eng, st, pos, kw, fx):
